@@ -46,8 +46,7 @@ def handle (j : Json) : Except String Json := do
     let dates ← (← (← j.getObjVal? "dates").getArr?).toList.mapM Date.fromJson
     let hist ← (← j.getObjVal? "hist").getBool?
     let spec := impl.map fun out =>
-      if hist then [("valuesEmpty", Spec.C15.valuesEmpty out), ("basis", Spec.C15.basisKept t out),
-                    ("canonical", Spec.isCanonical out)]
+      if hist then Spec.C15.rightDiagHistSpec t dates out
       else Spec.C15.rightDiagSpec t dates out
     return answer (makeRightDiagonal t dates hist) spec
   | "fill" =>
